@@ -307,13 +307,20 @@ Section FrozenOps.
     assert (Hrecf := exec_framed ct no_dnc b XFUEL).
     destruct hp.
     - eapply sframed_bind; [apply St|apply Hsf|]. intros r _. apply with_attr_inplace_frozen.
+    - assert (H : forall p0, sframed b P
+        (r <- spec_for ct l a ;; let sp := snd r in
+         old <- current_value ct l sp true (is_sentinel p0) ;;
+         v <- exec ct XFUEL (KMutateValue (mkmv old p0 false PNone (h_kw h)
+                                      (Some (ctor_of_ty (a_ty sp))) (Some (a_ty sp)) None [] false)) ;;
+         with_attr ct l sp v None true) (fun _ => True)).
+      { intro p0. eapply sframed_bind; [apply St|apply Hsf|]. intros r _. cbv zeta.
+        eapply sframed_bind; [apply St|apply sframed_of_framed; apply (current_value_framed ct no_dnc)|].
+        intros old _.
+        eapply sframed_bind with (Q := fun _ => True); [apply St| |intros; apply with_attr_inplace_frozen].
+        apply sframed_of_framed. eapply framed_weaken; [apply Hrecf; reflexivity|auto]. }
+      destruct (pos0 h) eqn:Ep; try apply H. apply sframed_of_framed; now apply framed_ret.
     - eapply sframed_bind; [apply St|apply Hsf|]. intros r _. cbv zeta.
-      eapply sframed_bind; [apply St|apply sframed_of_framed; apply (getattr_default_framed ct no_dnc)|].
-      intros old _.
-      eapply sframed_bind with (Q := fun _ => True); [apply St| |intros; apply with_attr_inplace_frozen].
-      apply sframed_of_framed. eapply framed_weaken; [apply Hrecf; reflexivity|auto].
-    - eapply sframed_bind; [apply St|apply Hsf|]. intros r _. cbv zeta.
-      eapply sframed_bind; [apply St|apply sframed_of_framed; apply (getattr_default_framed ct no_dnc)|].
+      eapply sframed_bind; [apply St|apply sframed_of_framed; apply (current_value_framed ct no_dnc)|].
       intros old _.
       eapply sframed_bind with (Q := fun _ => True); [apply St| |intros; apply with_attr_inplace_frozen].
       apply sframed_of_framed. eapply framed_weaken; [apply Hrecf; reflexivity|auto].
